@@ -8,5 +8,22 @@ CLAIMED = {
  },
 }
 
-NOT_APPLICABLE = {p: PENDING for p in ["C01","C02","C03","C04","C05","C06","C07","C08","C09","C10","C12","C13","C14","C15","C16","C17","C18","C19"]}
+CLAIMED["C12"] = {
+  "text": "Bounded symbolic model checking of the real decoder on a bytes.Reader over fully symbolic inputs of length 0..10 (quick) / 0..12 (thorough): every Decode* entry point succeeds iff an independent RFC 8949 reference accepts (complete definite head of the requested major type, declared length <= remaining input compared in uint64, text valid per an independent UTF-8 predicate), returns the reference value and consumes exactly the item. Heads up to 9 bytes are covered for all 2^64 arguments; io.CopyN/bytes.Buffer are interpreted from their real SSA.",
+  "note": "Trusted: z3/cvc5, gosym encoding (native replay of counterexamples, rewriter selftest), the reference decoder. Outside: inputs longer than the bound (string content beyond ~10 bytes; text strings with more than 5/6 content bytes).",
+}
+CLAIMED["C13"] = {
+  "text": "Bounded symbolic model checking of cbor.Deterministic against an independent recursive recogniser of RFC 8949 core-deterministic item sequences: all byte strings of length 0..3 (quick) / 0..5 (thorough) fully symbolic, plus every long head (1/2/4/8 symbolic follow bytes) of major types 0,2,3,4,5 at top level / inside an array / as a map key followed by 0..2(3) symbolic bytes - the region of counts and lengths near 2^32, 2^63, 2^64. A panic counts as rejection (as the package's tests demand); a path that exceeds the instruction/decision budget is replayed natively and reported as non-termination.",
+  "note": "Trusted: solvers, gosym encoding, the reference recogniser. Text strings are not required to be valid UTF-8 (RFC 8949 well-formedness and section 4.2.1 do not require it). Outside: longer inputs of other shapes; stack depth on deeply nested input.",
+}
+CLAIMED["C14"] = {
+  "text": "Bounded symbolic model checking of mice.Encode / NewDecoder / Read with SHA-256 as an uninterpreted collision-free function: for both drafts, record sizes 1..3 (quick) / 1..4 and 16383, 16384 (thorough), payload lengths 0..2*rs+1 (all residues, exact multiples) with symbolic content, the stream and the digest header equal an independent implementation of the draft's recursive definition (own base64), and decode(encode(p)) = p without error; the record-count arithmetic is decided for ALL record sizes in [1, 2^63) (symbolic) with payload lengths 0..3.",
+  "note": "Trusted: solvers, gosym encoding, the reference MI implementation; SHA-256 idealised (functional consistency + collision-freeness axioms); encoding/base64 is interpreted from its real SSA. Outside: payloads longer than 2*rs+1, record sizes between 5 and 16382 for the content checks (the arithmetic is covered for all).",
+}
+CLAIMED["C15"] = {
+  "text": "Bounded symbolic model checking of the MI decoder against a from-the-draft specification on ARBITRARY streams and ARBITRARY digests: 8 symbolic record-size bytes (all 2^64 values) + up to 70/75 symbolic bytes (room for two full units and a partial one), 32 symbolic digest bytes, both drafts, record-size limits 2 and 16384, destination buffer sizes 1 and 64 (thorough: also a one-byte-at-a-time source). SHA-256 is an uninterpreted collision-free function, so streams containing values that happen to be proofs are included. Decided: output is always a prefix of the authenticated payload; io.EOF only after the complete authenticated payload; zero/oversized record size refused after exactly 8 bytes; authenticated streams decode without error.",
+  "note": "Trusted: solvers, gosym encoding, the specification walker in the harness; SHA-256 idealised as collision-free UF (counterexample models are repaired with real SHA-256 before native replay). Outside: streams with more than two full records, record sizes that need more than 75 stream bytes to complete a unit (they fall into the short-final-record class).",
+}
+
+NOT_APPLICABLE = {p: PENDING for p in ["C01","C02","C03","C04","C05","C06","C07","C08","C09","C10","C16","C17","C18","C19"]}
 NOT_APPLICABLE["C20"] = "command-line tools over processes, files, net/http, PEM/PKCS#8/X.509: cannot be encoded by the SSA executor within reach (reflection/unsafe/syscalls); its one pure kernel is net/url resolution over symbolic strings (concrete-only in this engine). Running the binaries would be testing, a different family. See DESIGN.md §6.1."
